@@ -50,6 +50,18 @@ Theorem C05_sequence_in_declaration_order : forall cfg th lg sv tag its,
 Proof. exact one_sink_order. Qed.
 Print Assumptions C05_sequence_in_declaration_order.
 
+(* nesting flattens: sequence<A, sequence<B, C>>, sequence<sequence<A, B>, C> and sequence<A, B, C> hand the same text to
+   the same leaves in the same order, whatever way a leaf takes its argument (lg_sinks lg above is the number of leaves) *)
+Theorem C05_nested_sequence_flattens : forall s text t n,
+  sink_tree t s text n = sink_tree (seq_flatten t) s text n.
+Proof. exact nested_sequence_flattens. Qed.
+Print Assumptions C05_nested_sequence_flattens.
+
+Theorem C05_sequence_same_text_to_every_leaf : forall s text t n,
+  sink_tree t s text n = (map (fun i => Sink i s text) (seq n (nleaves t)), n + nleaves t).
+Proof. exact sink_tree_flat. Qed.
+Print Assumptions C05_sequence_same_text_to_every_leaf.
+
 (* what is delivered: severity and tag of the statement, message = concatenation in order of everything streamed;
    no null dereference *)
 Theorem C05_delivered_unaltered : forall cfg th lg sv tag its e,
@@ -161,9 +173,9 @@ Local Open Scope string_scope.
 Definition cfg_info := mkConfig Info harness_fmt.
 Definition th_dw : thresholds := set_threshold (set_threshold init_thresholds 0 0 Debug) 0 1 Error.
 (* band filter  T0 <= sev < T1  with a two-member sequence *)
-Definition lg_band := mkLogger 0 true (FAnd (FThr 0) (FNot (FThr 1))) 2.
+Definition lg_band := mkLogger 0 true (FAnd (FThr 0) (FNot (FThr 1))) (SSeq [SLeaf MByValue; SLeaf MConstRef]).
 (* the same filter type over another record type, one without a tag attribute *)
-Definition lg_band_b := mkLogger 1 false (FAnd (FThr 0) (FNot (FThr 1))) 2.
+Definition lg_band_b := mkLogger 1 false (FAnd (FThr 0) (FNot (FThr 1))) (flat_sinks 2).
 Example C05_ex_enabled :
   exec_one cfg_info th_dw lg_band Warn (Some (B "tg")) [IStr (B "a"); INum 42; ICall KLambda 7 (B "x")]
   = [Call 7; Format (mkRecord Warn (B "tg") (B "a42x")); Sink 0 Warn (B "3|tg|a42x"); Sink 1 Warn (B "3|tg|a42x")].
@@ -182,6 +194,10 @@ Proof. reflexivity. Qed.
 Example C05_ex_other_record_type :
   run cfg_info [OSet 1 0 Warn; OSet 1 1 Fatal; OSet 0 0 Fatal; OOne lg_band_b Error (Some (B "tg")) [IStr (B "q")]; OOne lg_band Error None [IStr (B "r")]]
   = [Format (mkRecord Error (B "") (B "q")); Sink 0 Error (B "4||q"); Sink 1 Error (B "4||q")].
+Proof. reflexivity. Qed.
+Example C05_ex_nested :
+  exec_one cfg_info init_thresholds (mkLogger 0 true FNull (SSeq [SSeq [SLeaf MByValue; SLeaf MConstRef]; SLeaf MRvalue])) Warn None [IStr (B "n")]
+  = [Format (mkRecord Warn (B "") (B "n")); Sink 0 Warn (B "3||n"); Sink 1 Warn (B "3||n"); Sink 2 Warn (B "3||n")].
 Proof. reflexivity. Qed.
 Example C05_ex_enabled_hyp : enabled Info th_dw lg_band Warn = true.
 Proof. reflexivity. Qed.
